@@ -12,11 +12,14 @@
      `genIdent n idx`), distinctness in trait mode, and two counterexamples: helper names CAN clash in inherent mode
      with eleven or more families on different self types (`C08_inherent_helper_names_clash_counterexample`, new), and
      a user item named like a helper is shadowed inside the constant (`C08_user_item_shadowed_counterexample`, D11).
+  4. (last section) The helper impls name the helper trait by ONE unqualified segment whatever qualifiers the user wrote
+     (`C08_helper_path_unqualified`, `C08_helper_impls_unqualified`; /repo commit ccb06e8).
 -/
 import DisjointImpls.Lemmas.Names
 import DisjointImpls.Validate
 import DisjointImpls.Lemmas.ExpandEmit
 import DisjointImpls.Props.C17
+import DisjointImpls.Lemmas.HelperPath
 namespace DI
 
 /-! ## Helper-trait names -/
@@ -288,5 +291,102 @@ theorem C08_user_item_shadowed_counterexample :
        | none => false)) = true := by
   with_unfolding_all decide
 end TopLevelExamples
+
+/-! ## The helper impls never name the helper trait through the user's qualifiers
+    (disjoint.rs, /repo commit ccb06e8 "fix: helper traits are named by the last path segment only")
+
+The helper trait `_<Name><idx>` is declared INSIDE the anonymous constant, next to the helper impls; a qualifier the user
+wrote on the trait path (`impl<T> self::Kita for T`, `impl<T> ::krate::Kita for T`) or on the self type of an inherent block
+(`impl<T> meters::Wrapper<T>`) names a place where no `_<Name><idx>` exists (E0405 before the repair). Now the trait
+reference of every helper impl is the single segment, with no leading `::`. -/
+
+/-- **Helper path.** If `helperImpl idx ip idents row member = some h` (either mode: `ip = none` in trait mode,
+    `ip = some p₀` the generated self-type path in inherent mode) then, with `p` the source path (`helperSourcePath_hp`: the
+    member's trait path, resp. `p₀`) and `x<args>` its LAST segment, the trait path of `h` (`implTraitPath`, and the checker's
+    `XOK.traitPathOf`) is EXACTLY `pathNode noLead [one segment]`: no leading `::`, one segment, whose identifier is
+    `genIdentStr x idx` = `_<x><idx>` and whose arguments `na` are the printed row followed by `args`
+    (`helperSegArgs_hp`). The leading segments and the leading `::` of `p` occur nowhere in it. The executable form of the
+    statement, `helperPathUnqualified_hp idx ip member h` (reads the given trees only), holds. No side condition. -/
+theorem C08_helper_path_unqualified (idx : Nat) (ip : Option T) (idents : List (BKey × String)) (row : List (Option T))
+    (member h : T) (hh : helperImpl idx ip idents row member = some h) :
+    ∃ p x args na, helperSourcePath_hp ip member = some p ∧
+      lastSegOf p = some (.node "PathSegment" [] [.node "Ident" [x] [], args]) ∧
+      helperSegArgs_hp (rowArgs idents row) args = some na ∧
+      implTraitPath h = some (pathNode noLead [.node "PathSegment" [] [tIdent (genIdentStr x idx), na]]) ∧
+      XOK.traitPathOf h = some (pathNode noLead [.node "PathSegment" [] [tIdent (genIdentStr x idx), na]]) ∧
+      helperPathUnqualified_hp idx ip member h = true := by
+  obtain ⟨p, x, args, na, h1, h2, h3, h4, h5⟩ := helperImpl_path_hp hh
+  exact ⟨p, x, args, na, h1, h2, h3, h4, h5, (helperPathUnqualified_of_hp hh).1⟩
+
+/-- **All helper impls of a family.** Every helper impl `helperImpls idx g` returns has a single-segment trait reference
+    without a leading `::` (`pathUnqualified_hp`, executable, reads the helper impl only). No side condition. -/
+theorem C08_helper_impls_unqualified (idx : Nat) (g : T × ABG × List Blk) (hs : List T)
+    (hh : helperImpls idx g = some hs) : hs.all pathUnqualified_hp = true :=
+  helperImpls_unqualified_hp hh
+
+namespace Ex08
+open Ex11
+/-- `impl<T: Dispatch<Group = g>> [::]s₁::…::sₙ for T {}` (`lead` = `noLead` / `someLead`) -/
+def qualBlock (lead : T) (segs : List T) (g : String) : T :=
+  .node "ItemImpl" [] [attrs, leaf "None", leaf "None",
+    .node "Generics" [] [leaf "Some", .node "List" [] [tyParam "T" [traitBound (dispatch g)]], leaf "Some", leaf "None"],
+    .node "Some" [] [.node "Tuple" [] [leaf "None", .node "Path" [] [lead, .node "List" [] segs]]],
+    Ex11.tyPath [Ex11.seg "T"], .node "List" [] []]
+/-- `impl<T: Dispatch<Group = g>> self::Kita for T {}` -/
+def selfKita (g : String) : T := qualBlock noLead [Ex11.seg "self", Ex11.seg "Kita"] g
+/-- `impl<T: Dispatch<Group = g>> ::krate::Kita for T {}` -/
+def absKita (g : String) : T := qualBlock someLead [Ex11.seg "krate", Ex11.seg "Kita"] g
+/-- `_Kita0<g>` as a path -/
+def kita0 (g : String) : T :=
+  pathNode noLead [.node "PathSegment" [] [tIdent "_Kita0", DI.angle [gaType (Ex11.tyPath [Ex11.seg g])]]]
+end Ex08
+
+section UnqualifiedExamples
+open Ex08
+set_option maxRecDepth 1000000
+
+/-- non-vacuity, the input of the repaired E0405: the members `impl<T: Dispatch<Group = GroupA>> self::Kita for T {}` and the
+    same with `GroupB` (trait path with TWO segments) form one family; the generators succeed; the two helper impls implement
+    exactly `_Kita0<GroupA>` and `_Kita0<GroupB>` — one segment, no `self::` —; `helperPathUnqualified_hp` holds for every
+    (member, helper impl) pair; the MAIN impl keeps the user's path `self::Kita`; `expandOKB` and the item-level checker
+    `itemsOK_it` accept -/
+example : ExOK.checkFirst [selfKita "GroupA", selfKita "GroupB"] (fun g hs m =>
+    g.2.2.length == 2 && hs.length == 2 && expandWF g && wildcardsFixed g && expandOKB g (thetasOf g) hs m &&
+    hs.all pathUnqualified_hp &&
+    hs.map implTraitPath == [some (kita0 "GroupA"), some (kita0 "GroupB")] &&
+    (List.zip (g.2.2.map (·.item)) hs).all (fun mh => helperPathUnqualified_hp 0 none mh.1 mh.2) &&
+    g.2.2.map (fun b => (implTraitPath b.item).map (fun p => (pathSegments p).length)) == [some 2, some 2] &&
+    itemsOK_it ExOK.kitaTrait 0 g ((helperTraitOfTrait ExOK.kitaTrait 0 1).getD (.node "?" [] [])) hs m &&
+    implTraitPath m == some (.node "Path" [] [noLead, .node "List" [] [Ex11.seg "self", Ex11.seg "Kita"]])) = true := by
+  with_unfolding_all decide
+
+/-- the same with a leading `::`: `impl<T: Dispatch<Group = g>> ::krate::Kita for T {}`; the helper impls implement `_Kita0<g>`
+    (no leading `::`, no `krate::`), the main impl `::krate::Kita` -/
+example : ExOK.checkFirst [absKita "GroupA", absKita "GroupB"] (fun g hs m =>
+    g.2.2.length == 2 && hs.length == 2 && expandWF g && wildcardsFixed g && expandOKB g (thetasOf g) hs m &&
+    hs.all pathUnqualified_hp &&
+    hs.map implTraitPath == [some (kita0 "GroupA"), some (kita0 "GroupB")] &&
+    (List.zip (g.2.2.map (·.item)) hs).all (fun mh => helperPathUnqualified_hp 0 none mh.1 mh.2) &&
+    g.2.2.map (fun b => (implTraitPath b.item).map pathLead) == [some someLead, some someLead] &&
+    implTraitPath m == some (.node "Path" [] [someLead, .node "List" [] [Ex11.seg "krate", Ex11.seg "Kita"]])) = true := by
+  with_unfolding_all decide
+
+/-- `helperImpl` directly, on one member with a qualified path (no keys, empty row, family index 3): the hypothesis of
+    `C08_helper_path_unqualified` is satisfiable and its conclusion is what it says -/
+example :
+    (helperImpl 3 none [] [] (absKita "GroupA")).map implTraitPath =
+      some (some (pathNode noLead [.node "PathSegment" [] [tIdent "_Kita3", DI.angle []]])) ∧
+    (helperImpl 3 none [] [] (absKita "GroupA")).map (helperPathUnqualified_hp 3 none (absKita "GroupA")) = some true := by
+  with_unfolding_all decide
+
+/-- the checker is not vacuous: it rejects the helper impl the generator produced BEFORE the repair
+    (`impl<T: …> self::_Kita0<GroupA> for T`) -/
+example :
+    let old := qualBlock noLead [Ex11.seg "self",
+      .node "PathSegment" [] [tIdent "_Kita0", DI.angle [gaType (Ex11.tyPath [Ex11.seg "GroupA"])]]] "GroupA"
+    pathUnqualified_hp old = false ∧ helperPathUnqualified_hp 0 none (selfKita "GroupA") old = false := by
+  with_unfolding_all decide
+
+end UnqualifiedExamples
 
 end DI
